@@ -29,7 +29,7 @@ def gen_inlines(r, depth=0, plain=False, in_link=False, in_em=False, in_strong=F
                 out.append(("code", r.choice(["code", "a b", "two words"])))
             elif kind == "link" and not in_link:
                 out.append(("link", gen_inlines(r, depth + 1, plain, True, in_em, in_strong, breaks),
-                            r.choice(["/url", "http://e.x/a?b=c", "#frag", "/p/q.html", "https://e.x/M_(l)", "/a(b)c", "/caf\u00e9"]), r.choice([None, None, "title", "two words"])))
+                            r.choice(["/url", "http://e.x/a?b=c", "#frag", "/p/q.html", "https://e.x/M_(l)", "/a(b)c", "/caf\u00e9"]), r.choice([None, None, "title", "two words", "the Joneses'", "'tis"])))
             elif kind == "image" and not in_link:
                 out.append(("image", " ".join(r.choice(WORDS) for _ in range(r.randint(1, 2))), r.choice(["/i.png", "http://e.x/i.gif", "/img/p(1).png"]), r.choice([None, "t"])))
             elif kind == "autolink" and not in_link:
@@ -48,7 +48,8 @@ def gen_inlines(r, depth=0, plain=False, in_link=False, in_em=False, in_strong=F
             out.append(("code", r.choice(["code", "a b", "<i>", "a  b", "\\n", "&amp;", "[z]"] + ([] if (in_em or in_strong) else ["x*y", "a_b"]))))
         elif k < 0.79 and not in_link:
             out.append(("link", gen_inlines(r, depth + 1, plain, True, in_em, in_strong, breaks), r.choice(["/url", "http://e.x/a?b=c", "#frag", "/p/q.html", "https://e.x/M_(l)", "/a(b)c", "/caf\u00e9"]),
-                        r.choice([None, None, "title", "two words"])))
+                        # (titles that begin or end with the characters that delimit a title)
+                        r.choice([None, None, "title", "two words", 'he said "hi"', "the Joneses'", "'tis", '"q" and a', "''"])))
         elif k < 0.84 and not in_link:
             out.append(("image", " ".join(r.choice(WORDS) for _ in range(r.randint(1, 2))), r.choice(["/i.png", "http://e.x/i.gif", "/img/p(1).png"]), r.choice([None, "t"])))
         elif k < 0.88 and not in_link:
@@ -158,6 +159,10 @@ def dest(url):
     return ("<" + url + ">") if ("(" in url or ")" in url) else url
 
 
+def _title(t):
+    return ' "%s"' % t.replace("\\", "\\\\").replace('"', '\\"') if t else ""
+
+
 def print_inlines(ins):
     out = []
     for x in ins:
@@ -173,9 +178,9 @@ def print_inlines(ins):
             fence = "``" if "`" in c else "`"
             out.append(fence + c + fence)
         elif t == "link":
-            out.append("[" + print_inlines(x[1]) + "](" + dest(x[2]) + ((' "%s"' % x[3]) if x[3] else "") + ")")
+            out.append("[" + print_inlines(x[1]) + "](" + dest(x[2]) + _title(x[3]) + ")")
         elif t == "image":
-            out.append("![" + x[1] + "](" + dest(x[2]) + ((' "%s"' % x[3]) if x[3] else "") + ")")
+            out.append("![" + x[1] + "](" + dest(x[2]) + _title(x[3]) + ")")
         elif t == "autolink":
             u = x[1]
             out.append("<" + (u[7:] if u.startswith("mailto:") else u) + ">")
